@@ -16,7 +16,7 @@ import sys
 import time
 import traceback
 
-sys.setrecursionlimit(10000)
+sys.setrecursionlimit(1500)  # runaway recursion in the code under test must surface as RecursionError (a violation), not as a hang
 
 
 def _load(modname, obname):
